@@ -29,6 +29,10 @@ def showId : Option Nat → String
   | some id => s!"ok {id}"
   | none => "reject"
 
+def showOk : Option Nat → String
+  | some _ => "ok"
+  | none => "reject"
+
 def handle (st : St) (toks : List String) : Option (St × String) :=
   match toks with
   | ["keys", es] => do pure (← entries? es, "ok")
@@ -37,6 +41,11 @@ def handle (st : St) (toks : List String) : Option (St × String) :=
   | ["mac", pre, len, bits] => do
     pure (st, showId (macAccept (bitsAcc bits) st (mkY (← bytesOfTok? pre) (← len.toNat?)) []))
   | ["tryall", bits] => some (st, showId (tryAll (bitsAcc bits) st [] []))
+  -- verdict only (harnesses without a monitoring client cannot observe which key worked)
+  | ["acceptb", pre, len, bits] => do
+    pure (st, showOk (accept (bitsAcc bits) st (mkY (← bytesOfTok? pre) (← len.toNat?)) []))
+  | ["macb", pre, len, bits] => do
+    pure (st, showOk (macAccept (bitsAcc bits) st (mkY (← bytesOfTok? pre) (← len.toNat?)) []))
   | ["producer"] => some (st, match producer st with | some e => s!"ok {e.id} {tokOfBytes e.pre}" | none => "none")
   | ["prfids"] => some (st, s!"{Driver.showNatList (Driver.sortNat (prfIds st))} | {match producer st with | some e => toString e.id | none => "-"}")
   | _ => none
